@@ -23,6 +23,8 @@ DevWidthSkip == /\ Devs = "DFWidthSkip" /\ More /\ ~broken
 DevRejEst == /\ Devs = "RejectedEstablishes" /\ More /\ ~broken /\ Ev.raised = "ValueError"
              /\ Dev_RejectedEstablishes(Ev.inp) /\ Chk("total", total', Ev.total) /\ Adv
 Havoc == /\ More /\ broken /\ total' = Ev.total /\ UNCHANGED <<vcfg, dim, cols, accepted, broken>> /\ Adv
-Next == Accepted \/ AcceptedRef \/ Rejected \/ DevWidthSkip \/ DevRejEst \/ Havoc
+Diag == /\ Note("accepted although the rule refuses this input", More /\ ~broken /\ Ev.raised = "None" /\ ~Valid(Ev.inp), <<Ev.inp, "dim", dim, "cols", cols>>)
+        /\ Note("refused although the rule accepts this input", More /\ ~broken /\ Ev.raised # "None" /\ Valid(Ev.inp), <<Ev.inp, Ev.raised, "dim", dim, "cols", cols>>)
+Next == Diag /\ (Accepted \/ AcceptedRef \/ Rejected \/ DevWidthSkip \/ DevRejEst \/ Havoc)
 Spec == Init /\ [][Next]_tvars
 =============================================================================
